@@ -43,6 +43,8 @@ class VerifParamSource(track_params.ParamSource):
         reqs = self._params["requests"][self._client % len(self._params["requests"])]
         r = dict(reqs[self._k % len(reqs)])
         r["_k"] = self._k
+        r["_client"] = self._client
+        r["_task"] = self._params.get("task")
         self._k += 1
         return r
 
@@ -61,6 +63,9 @@ async def verif_runner(es, params):
         res["success"] = False
     if params.get("supplied_throughput") is not None:
         res["throughput"] = params["supplied_throughput"]
+    if params.get("_task") is not None:
+        # unique id of the logical request (task, client index in task, ordinal): every stored record identifies its request
+        res["verif_id"] = f"{params['_task']}:{params['_client']}:{params['_k']}"
     return res
 
 
